@@ -290,6 +290,35 @@ func runC11(c *runCtx) {
 				}
 			}
 		}
+		// and in one session in two: A's cache is built over the existing bugs (no cache files), an edit of a
+		// bug that the build loaded stays uncommitted, then close and reopen
+		if si%2 == 0 {
+			u := users[0]
+			u.rc.Close()
+			u.repo.Close()
+			os.RemoveAll(filepath.Join(u.dir, ".git", gbNamespace, "cache"))
+			u.open()
+			u.act("reopen-built", "")
+			if ids := u.rc.Bugs().AllIds(); len(ids) > 0 {
+				sort.Slice(ids, func(i, j int) bool { return ids[i] < ids[j] })
+				if b, err := u.rc.Bugs().Resolve(ids[0]); err == nil {
+					b.AddComment("never committed " + randHexId(r, 3))
+					u.act("stage", string(ids[0]))
+				}
+			}
+			u.rc.Close()
+			u.repo.Close()
+			u.open()
+			u.act("reopen", "")
+			log = append(log, "A:reopen(built)", "A:stage", "A:reopen")
+			c.count("directed-build-stage-reopen")
+			live := served(u.rc, tokens)
+			if re, err := rebuilt(u, tokens); err == nil {
+				if d := diffServed(live, re); d != "" {
+					c.violation(-1, "C11/incoherent", fmt.Sprintf("after %v the live cache of A differs from a rebuilt one: %s", log, d), nil)
+				}
+			}
+		}
 		for st := 0; st < steps; st++ {
 			u := pickOne(r, users)
 			act := ""
@@ -451,13 +480,24 @@ func runC11(c *runCtx) {
 					panic(err)
 				}
 				u.repo.Close()
+				// one time in three the cache files are gone (a new clone of the directory, a format change):
+				// the cache is built, and a build loads every entity — by another path than Resolve does
+				built := r.chance(1, 3)
+				if built {
+					os.RemoveAll(filepath.Join(u.dir, ".git", gbNamespace, "cache"))
+				}
 				u.open()
 				if len(u.staged) > 0 {
 					c.count("reopen-with-abandoned-staging")
 				}
 				u.staged = nil
 				act = "reopen"
-				u.act("reopen", "")
+				if built {
+					act = "reopen(built)"
+					u.act("reopen-built", "")
+				} else {
+					u.act("reopen", "")
+				}
 			}
 			if act == "" {
 				continue
